@@ -88,6 +88,16 @@ def discr_guard(crate, c):
     return c
 
 
+def checked_sub_guard(c):
+    """`a.checked_sub(b)` on UNSIGNED integers is Some exactly when b <= a: testing its presence is that comparison"""
+    if c[0] in ('present', 'absent') and isinstance(c[1], tuple):
+        x = core(c[1])
+        if x[0] == 'call' and re.search(r'core::num::<impl (u8|u16|u32|u64|u128|usize)>::checked_sub$', x[1]) and len(x[2]) == 2:
+            a, b = x[2]
+            return ('cmp', 'le', b, a) if c[0] == 'present' else ('cmp', 'lt', a, b)
+    return c
+
+
 def counter_guard(c):
     """`i < X.len()` on a 0-based, step-1 loop counter i is the loop test "X has a next element" (index-driven loops)"""
     from norm import _is_counter, _len_of
@@ -226,6 +236,8 @@ def guard_edges(g):
             if not t['exp']:
                 c = negate(c)
             out.append(Guard(ctx, bb, 'ok', c, t.get('at'), D))
+    for gd_ in out:
+        gd_.cond = checked_sub_guard(gd_.cond)
     g._guards = out
     return out
 
